@@ -7,8 +7,11 @@ import (
 	"bytes"
 	"context"
 	"crypto/rand"
+	"crypto/sha256"
+	"crypto/sha512"
 	"errors"
 	"fmt"
+	"hash"
 	"io"
 	"time"
 
@@ -224,7 +227,20 @@ func (s *TO0Server) acceptOwner(ctx context.Context, msg io.Reader) (*to0AcceptO
 	}
 
 	// Verify to0d hash matches to0d
-	to0dHash := sig.To1d.Payload.Val.To0dHash.Algorithm.HashFunc().New()
+	if sig.To1d.Payload == nil {
+		captureErr(ctx, protocol.InvalidMessageErrCode, "")
+		return nil, fmt.Errorf("to1d has no payload")
+	}
+	var to0dHash hash.Hash
+	switch alg := sig.To1d.Payload.Val.To0dHash.Algorithm; alg {
+	case protocol.Sha256Hash, protocol.HmacSha256Hash:
+		to0dHash = sha256.New()
+	case protocol.Sha384Hash, protocol.HmacSha384Hash:
+		to0dHash = sha512.New384()
+	default:
+		captureErr(ctx, protocol.InvalidMessageErrCode, "")
+		return nil, fmt.Errorf("unsupported to0d hash algorithm: %d", int64(alg))
+	}
 	if err := cbor.NewEncoder(to0dHash).Encode(sig.To0d.Val); err != nil {
 		return nil, fmt.Errorf("error hashing to0d structure: %w", err)
 	}
@@ -257,6 +273,21 @@ func (s *TO0Server) acceptOwner(ctx context.Context, msg io.Reader) (*to0AcceptO
 
 	// Use optional callback to decide whether to accept voucher and how long
 	// the rendezvous blob should be valid
+	// Verify that the rendezvous blob was signed by the current owner of the
+	// voucher
+	ownerPub, err := ov.OwnerPublicKey()
+	if err != nil {
+		captureErr(ctx, protocol.InvalidMessageErrCode, "")
+		return nil, fmt.Errorf("error parsing owner public key of voucher: %w", err)
+	}
+	if ok, err := sig.To1d.Verify(ownerPub, nil, nil); err != nil {
+		captureErr(ctx, protocol.InvalidMessageErrCode, "")
+		return nil, fmt.Errorf("error verifying to1d signature: %w", err)
+	} else if !ok {
+		captureErr(ctx, protocol.InvalidMessageErrCode, "")
+		return nil, fmt.Errorf("%w: to1d was not signed by the owner key of the voucher", ErrCryptoVerifyFailed)
+	}
+
 	ttl := sig.To0d.Val.WaitSeconds
 	if s.AcceptVoucher != nil {
 		if ttl, err = s.AcceptVoucher(ctx, ov, ttl); err != nil {
